@@ -32,7 +32,7 @@ ASSUMPTIONS = [
     "external-workbook references (iSupBook not the internal SupBook) and multi-sheet 3-D spans (itabFirst <> itabLast) are outside the property's grammar; calamine ignores iSupBook/itabLast",
     "defined names: every Lbl / BrtName / definedName / named-range record of the file is a defined name (the code filters nothing; hidden and built-in names keep their slot); an xls built-in name (fBuiltin + a one-character id of MS-XLS 2.5.114) is _xlnm.<Name>, the string the xlsx / xlsb twins store; an id outside the table or a longer string with fBuiltin is reported as stored",
     "xls shared formulas: a relative component of PtgRefN / PtgAreaN is an offset from the cell using the formula; rows wrap modulo 65536, columns modulo 256 (the low 8 bits of the column field are the offset); an area whose corners end up inverted after wrapping is printed as translated (Excel would normalise it); array formulas are reported as the plain text of the ARRAY record on every cell of the range (no braces); a PtgExp cell whose group has no SHRFMLA / ARRAY record has no text",
-    "xlsb shared / array formulas are a registered known class (K_PTGEXP): the xlsb reader does not look at BrtShrFmla / BrtArrFmla",
+    "xlsb shared formulas: a relative component of PtgRefN / PtgAreaN is an offset from the cell using the formula; rows wrap modulo 1048576, columns modulo 16384 (MS-XLSB RgceLocRel: 32-bit row, 14-bit column field); the group a PtgExp cell uses is the one whose BrtShrFmla / BrtArrFmla record follows the cell PtgExp names (row in the token, column in rgcb = PtgExtraCol), and that cell comes first in the sheet (rows and columns ascend); a PtgExp cell naming a cell that has started no group, or carrying no column (cb = 0), has no text and is absent like every xlsb cell without text; array formulas are reported as the plain text of the BrtArrFmla record on every cell; an inverted area after wrapping is printed as translated",
     "stored-text formats: the text of <f> (character data, entities and CDATA resolved) / of the table:formula attribute (entities resolved, of:= / = prefix kept) is the formula text; a repeated ods cell or row repeats its formula verbatim; cells whose text is empty are not formula cells",
     "FormulaEnv models the name / extern-sheet loops from the framed records on (framing: C02 / C03); the XML event level of xlsx / ods has no Coq model (the file tier compares the real readers with the generator's expansion and with the extracted Range::from_sparse)",
 ]
@@ -207,6 +207,21 @@ class Gen:
         the row / column itself"""
         rng = self.rng
         rr, cr = rng.randrange(2), rng.randrange(2)
+        if self.fmt == "xlsb":
+            # xlsb: a relative row is the 32-bit two's complement of the offset, a relative column the 14-bit one
+            if rr:
+                d = rng.choice([0, 0, 1, -1, 2, -2, 7, -7, 100, -100, 1048575, -1048575, 1048576, -1048576, 2**31 - 1, -2**31,
+                                rng.randrange(-1048575, 1048576)])
+                r = d % 2**32
+            else:
+                r = rng.choice([0, 1, 9, 65535, 65536, 1048575, rng.randrange(0, 1048576)])
+            if cr:
+                d = rng.choice([0, 0, 1, -1, 2, -2, 5, -5, 255, -256, 8191, -8192, 16383, -16383, rng.randrange(-16383, 16384)])
+                c = d % 16384
+            else:
+                c = rng.choice([0, 1, 25, 26, 255, 256, 16383, rng.randrange(0, 16384)])
+            self.ctx.count("%s:refn:row_%s,col_%s" % (self.fmt, "rel" if rr else "abs", "rel" if cr else "abs"))
+            return "%d %d %d %d" % (r, c, rr, cr)
         if rr:
             d = rng.choice([0, 0, 1, -1, 2, -2, 7, -7, 100, -100, 32767, -32768, rng.randrange(-65535, 65536)])
             r = d % 65536
@@ -311,7 +326,7 @@ class Gen:
         leaf = depth <= 0 or rng.random() < 0.25
         if leaf:
             k = rng.choice(["ref", "ref", "area", "ref3", "area3", "name", "int", "num", "str", "bool", "err", "miss"])
-            if self.fmt == "xls" and (self.base is not None and rng.random() < 0.45 or rng.random() < 0.01):
+            if self.base is not None and rng.random() < 0.45 or rng.random() < 0.01:
                 k = rng.choice(["refn", "refn", "arean"])       # without a base: not wf (the decoder refuses them)
         else:
             k = rng.choice(["un", "bin", "bin", "par", "func", "fvar", "fvar", "sum", "attr", "attr", "choose", "user"])
@@ -444,11 +459,15 @@ def run_ast_batch(ctx, fmt, n, tag, ftab_argc, depth=6):
     fmts = []
     for k in range(n):
         g.env()
-        # a fifth of the xls cases are shared formulas: decoded relative to a base cell
+        # a fifth of the cases are shared formulas: decoded relative to a base cell
         g.base = None
-        if fmt == "xls" and ctx.rng.random() < 0.2:
-            g.base = (ctx.rng.choice([0, 1, 9, 65535, ctx.rng.randrange(65536)]), ctx.rng.choice([0, 1, 25, 255, ctx.rng.randrange(256)]))
-            ctx.count("xls:with_base_cell")
+        if ctx.rng.random() < 0.2:
+            if fmt == "xls":
+                g.base = (ctx.rng.choice([0, 1, 9, 65535, ctx.rng.randrange(65536)]), ctx.rng.choice([0, 1, 25, 255, ctx.rng.randrange(256)]))
+            else:
+                g.base = (ctx.rng.choice([0, 1, 9, 65535, 1048575, ctx.rng.randrange(1048576)]),
+                          ctx.rng.choice([0, 1, 25, 255, 16383, ctx.rng.randrange(16384)]))
+            ctx.count("%s:with_base_cell" % fmt)
         d = ctx.rng.choice([0, 1, 2, 3, 4, 5, depth]) if k % 4 else depth
         ast = g.expr(d)
         ea = g.env_args()
@@ -595,6 +614,9 @@ def run_raw(ctx, fmt, n, tag, seeds):
         f_ = fmt
         if fmt == "xls" and rng.random() < 0.3:       # a base cell: PtgRefN / PtgAreaN are decoded
             f_ = "xls@%d:%d" % (rng.choice([0, 1, 65535, rng.randrange(65536)]), rng.choice([0, 1, 255, rng.randrange(256)]))
+        if fmt == "xlsb" and rng.random() < 0.3:
+            f_ = "xlsb@%d:%d" % (rng.choice([0, 1, 1048575, 1048576, U32, rng.randrange(1048576)]),
+                                 rng.choice([0, 1, 16383, 16384, 65536, U32, rng.randrange(16384)]))
         lines.append("%s%d\tptg\t%s\t%s\t%s" % (tag, k, f_, "\t".join(raw_env(rng, fmt)), data.hex()))
     impl, model = ctx.run_both(lines)
     for l in lines:
@@ -659,6 +681,16 @@ def corpus(ctx):
         ("xls@5:5", xenv, "refn r 65533 16382 1 1"),                               # 14-bit column offset -2: D3
         ("xls@5:5", xenv, "refn a 7 2 0 1"),                                       # mixed: H$8
         ("xls", xenv, "refn r 0 0 1 1"),                                           # no base cell: refused (not wf)
+        # the same for xlsb (former K_PTGEXP, xlsb half): rows modulo 1048576, columns modulo 16384
+        ("xlsb@1:1", benv, "bin 3 bin 5 refn v 0 16383 1 1 int 2 ref v 0 2 0 0"),            # B2: A2*2+$C$1 (column offset -1)
+        ("xlsb@3:1", benv, "bin 3 bin 5 refn v 0 16383 1 1 int 2 ref v 0 2 0 0"),            # B4: A4*2+$C$1
+        ("xlsb@0:3", benv, "sum arean r 4294967295 0 1 1 1 1 0 1"),                          # D1: SUM(D1048576:E$2), row -1 wraps
+        ("xlsb@1048575:16383", benv, "refn r 1 1 1 1"),                                      # XFD1048576: +1 / +1 wraps to A1
+        ("xlsb@5:5", benv, "refn r 3 2 0 0"),                                                # absolute: $C$4 from anywhere
+        ("xlsb@5:5", benv, "refn r 4294967293 16382 1 1"),                                   # -3 / -2: D3
+        ("xlsb@5:300", benv, "refn a 7 2 0 1"),                                              # mixed: KQ$8 (col 302)
+        ("xlsb@70000:5", benv, "refn v 1048574 0 1 0"),                                      # row offset +1048574 = -2: $A69999
+        ("xlsb", benv, "refn r 0 0 1 1"),                                                    # no base cell: refused (not wf)
     ] + [
         # audit G1: CHOOSE with 1, 2, 3, 4, 10 values (jump table + goto after each value)
         (fmt, env, "fvar v 100 %d int 2 post 8 %d chs %d %s int 10%s" % (
@@ -773,7 +805,9 @@ def run_files(ctx, n, ftab_argc):
 # Range::from_sparse over the formula cells).
 import fmlagen as fg
 
-KNOWN_PTGEXP = "K_PTGEXP"
+# (K_PTGEXP, shared / array formula cells reported without their formula, is repaired in both binary
+#  readers: xls d24e473, xlsb "fix: xlsb cells of shared and array formulas were reported without their
+#  formula"; no class of this property is left)
 KNOWN_XLS_NAME = "K_XLS_NAME_FORMULA"
 KNOWN_XLSX_CDATA = "K_XLSX_NAME_CDATA"
 E2E_DIR = os.path.join(vlib.CACHE, "tmp", "c14")
@@ -978,7 +1012,7 @@ def run_xlsb_files(ctx, n, argc):
             hexb, text = _pick_ast(model, x["cands"], "1e0700", "7") if x["cands"] else ("", "")
             payloads.append(fg.brt_name_payload(x["flags"], x["itab"], x["name"], bytes.fromhex(hexb), x["chkey"], x["comment"]))
             exp_names.append((x["name"], text))
-        sheet_cells, exp_sheets, has_exp, mlines = [], [], False, []
+        sheet_cells, exp_sheets, mlines, tables = [], [], [], []
         for si, slots in enumerate(sheets):
             recs, cells_prop, cells_model, cells_all = [], [], [], []
             for (r, c, kind, what) in slots:
@@ -988,11 +1022,24 @@ def run_xlsb_files(ctx, n, argc):
                     recs.append((r, c, kind, b""))
                     cells_all.append((r, c, ""))
                 elif what == "ptgexp":
-                    # member of a shared formula whose text is "7" (BrtShrFmla written by fmlagen)
-                    recs.append((r, c, kind, b"\x01" + struct.pack("<I", r)))
-                    cells_prop.append((r, c, "7"))
+                    q = rng.random()
+                    rgce_e, rgcb_e = fg.xlsb_ptgexp((r, c))
+                    if q < 0.6:
+                        # a one-cell shared group whose expression is 7 (former known class K_PTGEXP)
+                        recs.append((r, c, kind, rgce_e, rgcb_e, [(0x01AB, fg.brt_shrfmla_payload(r, r, c, c, b"\x1e\x07\x00"))]))
+                        cells_prop.append((r, c, "7"))
+                        cells_model.append((r, c, "7"))
+                        ctx.count("xlsb:file:ptgexp:one_cell_group")
+                    elif q < 0.85:
+                        # PtgExp naming a cell that starts no group (itself, no BrtShrFmla): nothing to report
+                        recs.append((r, c, kind, rgce_e, rgcb_e))
+                        ctx.count("xlsb:file:ptgexp:orphan")
+                    else:
+                        # PtgExp without its column (cb = 0): names no cell; the BrtShrFmla fmlagen may put
+                        # behind it belongs to nobody
+                        recs.append((r, c, kind, rgce_e))
+                        ctx.count("xlsb:file:ptgexp:no_column")
                     cells_all.append((r, c, ""))
-                    has_exp = True
                 else:
                     hexb, text = _pick_ast(model, what, "1e0700", "7")
                     recs.append((r, c, kind, bytes.fromhex(hexb)))
@@ -1000,17 +1047,20 @@ def run_xlsb_files(ctx, n, argc):
                     cells_model.append((r, c, text))
                     cells_all.append((r, c, text))
             sheet_cells.append(recs)
+            tables.append(fg.xlsb_table_records(recs, rng))
             exp_sheets.append([fg.expected_range(cells_prop), fg.expected_range(cells_model)])
-            mlines.append(_fpos_line("xb%d_p%d" % (k, si), cells_all))
+            # model: FormulaSheet.xlsb_sheet_formula_range on the records of the cell table
+            mlines.append("xb%d_p%d\tfsheet\txlsb\t%s\t%s\t%s" % (k, si, names_arg(ext), names_arg([x["name"] for x in nm]),
+                                                                 _recs_arg(tables[-1] + [(0x0092, b"")])))
             ctx.count("xlsb:file:formulas_per_sheet:%d" % len(cells_model))
         tail = fg.xlsb_tail_records(xtis, payloads)
-        path = _write("e%d.xlsb" % k, fg.xlsb_bytes(bundle, sheet_cells, tail, rng))
+        path = _write("e%d.xlsb" % k, fg.xlsb_bytes(bundle, sheet_cells, tail, rng, tables=tables))
         calls = "names;" + ";".join("formula " + hx(s) for s in bundle)
         line = "xb%d\topen\txlsb\t%s\t%s" % (k, path, calls)
         impl_lines.append(line)
         model_lines += mlines
         model_lines.append("xb%d_e\tfenv\txlsb\t%s\t-\t%s" % (k, names_arg(bundle), _recs_arg(tail)))
-        meta["xb%d" % k] = (line, fg.expected_names(exp_names), exp_sheets, KNOWN_PTGEXP if has_exp else None, ext)
+        meta["xb%d" % k] = (line, fg.expected_names(exp_names), exp_sheets, None, ext)
         # a malformed sibling (implementation vs model only): a truncated BrtName, or an extern-sheet
         # count that runs into the bytes an earlier record left in the reader's buffer
         if nm and rng.random() < 0.25:
@@ -1258,7 +1308,7 @@ def run_xls_files2(ctx, n, argc):
             if m != e[1]:
                 ctx.disagreements.append({"function": "formula_range (FormulaEnv model vs expansion of the generator)", "case": line,
                                           "impl": e[1], "model": m})
-        _check_book(ctx, "xls", line, impl.get(lid), ",".join(want), es, KNOWN_PTGEXP if has_exp else None, model_names=mnames)
+        _check_book(ctx, "xls", line, impl.get(lid), ",".join(want), es, None, model_names=mnames)
     ctx.extra["generated_xls_files"] = len(books)
     return meta, impl
 
@@ -1462,6 +1512,286 @@ def run_xls_shared_files(ctx, n, argc):
                 ctx.nontrivial("xls:shared:%s" % w)
     ctx.extra["generated_xls_shared_files"] = len(books)
     return meta, impl
+
+
+# ---- xlsb shared and array formulas (former known class K_PTGEXP, xlsb half)
+def _simple_shared_b(rng):
+    """a small shared expression with an INDEPENDENT reading of its text: (AST, f: member cell -> text).
+    corners are (row_rel, signed offset or row, col_rel, signed offset or column)"""
+    def corner():
+        rr, cr = rng.randrange(2), rng.randrange(2)
+        r = (rng.choice([0, 1, -1, 2, -3, 40, -40, 1048575, -1048575, rng.randrange(-300, 300)]) if rr
+             else rng.choice([0, 1, 9, 65535, 65536, 1048575, rng.randrange(1048576)]))
+        c = (rng.choice([0, 1, -1, 2, -2, 12, -12, 16383, -16383, rng.randrange(-20, 20)]) if cr
+             else rng.choice([0, 1, 25, 26, 255, 256, 16383, rng.randrange(16384)]))
+        return (rr, r, cr, c)
+    def stored(k):
+        rr, r, cr, c = k
+        return "%d %d %d %d" % (r % 2**32 if rr else r, c % 16384 if cr else c, rr, cr)
+    a, b = corner(), corner()
+    cls = rng.choice("rva")
+    kind = rng.randrange(4)
+    if kind == 0:
+        return "refn %s %s" % (cls, stored(a)), lambda p: fg.shared_ref_text_b(p, a)
+    if kind == 1:
+        return ("bin 5 refn %s %s int 2" % (cls, stored(a)), lambda p: fg.shared_ref_text_b(p, a) + "*2")
+    if kind == 2:
+        return ("sum arean %s %s %s" % (cls, stored(a), stored(b)),
+                lambda p: "SUM(%s:%s)" % (fg.shared_ref_text_b(p, a), fg.shared_ref_text_b(p, b)))
+    return ("bin 3 refn %s %s refn %s %s" % (cls, stored(a), cls, stored(b)),
+            lambda p: fg.shared_ref_text_b(p, a) + "+" + fg.shared_ref_text_b(p, b))
+
+
+def _mangle_table(rng, table):
+    """a malformed / unusual sibling of a cell table (implementation vs model only)"""
+    t = list(table)
+    idx = [i for i, (ty, _) in enumerate(t) if ty in (0x01AB, 0x01AA)]
+    cellidx = [i for i, (ty, _) in enumerate(t) if ty in (8, 9, 10, 11)]
+    q = rng.randrange(8)
+    if q == 0 and idx:                       # the group's record is cut somewhere
+        i = rng.choice(idx)
+        t[i] = (t[i][0], t[i][1][: rng.randrange(0, len(t[i][1]))])
+    elif q == 1 and idx:                     # its cce runs past the record
+        i = rng.choice(idx)
+        o = 16 if t[i][0] == 0x01AB else 17
+        t[i] = (t[i][0], t[i][1][:o] + struct.pack("<I", rng.choice([len(t[i][1]), 0x7FFFFFFF, 0xFFFFFFFF])) + t[i][1][o + 4:])
+    elif q == 2 and idx:                     # the group's record is missing: its cells name nobody
+        del t[rng.choice(idx)]
+    elif q == 3 and idx and cellidx:         # the record follows another cell (stray after a plain cell: ignored;
+        i = rng.choice(idx)                  # after a member: taken as a group starting there)
+        r_ = t.pop(i)
+        j = rng.choice([x for x in cellidx if x < len(t)] or [0])
+        t.insert(j + 1, r_)
+    elif q == 4 and idx:                     # shared <-> array record type swapped (formula offset off by one)
+        i = rng.choice(idx)
+        t[i] = (0x01AA if t[i][0] == 0x01AB else 0x01AB, t[i][1])
+    elif q == 5 and cellidx:                 # a cell record cut somewhere
+        i = rng.choice(cellidx)
+        t[i] = (t[i][0], t[i][1][: rng.randrange(0, len(t[i][1]))])
+    elif q == 6 and cellidx:                 # the sheet ends right after a cell: no record to look ahead to
+        i = rng.choice(cellidx)
+        return t[: i + 1], False
+    else:                                    # a row header beyond the last row ends the sheet
+        i = rng.randrange(0, len(t) + 1)
+        t.insert(i, (0x0000, struct.pack("<IIHBBBI", rng.choice([0x100000, 0x100001, 0xFFFFFFFF]), 0, 300, 0, 0, 0, 0)))
+    return t, True
+
+
+def run_xlsb_shared_files(ctx, n, argc):
+    """.xlsb sheets with shared groups (column, row, block; relative, absolute and mixed PtgRefN / PtgAreaN,
+    offsets that wrap around the sheet: windows at the origin and at row 1048575 / column XFD) and array
+    groups, between plain formula cells, value cells, orphan PtgExp cells: every cell of a group must report
+    the group's expression seen from its own position (C14_shared_formula_members_xlsb / _array_).
+    Expected = the Coq spec (ptg_ast with the base cell), for the simple expressions cross-checked against an
+    independent Python reading; model = FormulaSheet.xlsb_sheet_formula_range (cmd fsheet xlsb) on the records
+    of the cell table; real code = Xlsb::worksheet_formula of every sheet of the real file."""
+    rng = ctx.rng
+    g = Gen(ctx, "xlsb", argc)
+    books, ast_lines = [], []
+    for k in range(n):
+        ns = rng.randrange(1, 4)
+        bundle = rng.sample(SHEET_POOL, ns)
+        xtis = [(0, f, f) for f in ([rng.randrange(0, ns) for _ in range(rng.randrange(1, 4))] + [rng.choice([-1, -2, ns])])]
+        ext = [fg.xlsb_resolve_xti(x[1], bundle) for x in xtis]
+        g.sheets, g.xtis, g.nixti = ext, None, len(ext)
+        g.names = rng.sample(NAME_POOL, rng.randrange(0, 4))
+        g.base = None
+        ea = g.env_args()
+        sheets = []
+        for si in range(ns):
+            br, bc = _window(rng, 1048576, 16384, 40, 12)
+            used, items = set(), []
+            for gi in range(rng.choice([0, 1, 1, 2, 3])):
+                array = rng.random() < 0.25
+                shape = rng.choice(["col", "row", "block"])
+                h = rng.randrange(2, 7) if shape != "row" else 1
+                w = rng.randrange(2, 6) if shape != "col" else 1
+                r0, c0 = br + rng.randrange(0, 40 - h), bc + rng.randrange(0, 12 - w)
+                cells = [(r, c) for r in range(r0, r0 + h) for c in range(c0, c0 + w)]
+                if any(q in used for q in cells):
+                    continue
+                if not array and rng.random() < 0.3:
+                    cells = [cells[0]] + [q for q in cells[1:] if rng.random() < 0.7]      # not every cell uses the group
+                used.update(cells)
+                first = cells[0]
+                cands = []
+                for j in range(2):
+                    simple = None
+                    if array:
+                        ast = g.expr(rng.choice([0, 1, 2]))
+                    elif rng.random() < 0.5:
+                        ast, simple = _simple_shared_b(rng)
+                    else:
+                        g.base = first
+                        ast = g.expr(rng.choice([0, 1, 2, 3]))
+                        g.base = None
+                    lids = []
+                    for (r, c) in cells:
+                        lid = "bs%d_%d_%d_%d_%d_%d" % (k, si, gi, j, r, c)
+                        fmt = "xlsb" if array else "xlsb@%d:%d" % (r, c)
+                        ast_lines.append("%s\tptg_ast\t%s\t%s\t%s" % (lid, fmt, "\t".join(ea), ast))
+                        lids.append(lid)
+                    cands.append((ast, lids, simple))
+                ctx.count("xlsb:file:group:%s:%s" % ("array" if array else "shared", shape))
+                items.append({"kind": "array" if array else "shared", "cells": cells, "box": (r0, r0 + h - 1, c0, c0 + w - 1),
+                              "cands": cands})
+            for _ in range(rng.choice([0, 1, 2, 4])):
+                q = (br + rng.randrange(0, 40), bc + rng.randrange(0, 12))
+                if q in used:
+                    continue
+                used.add(q)
+                p_ = rng.random()
+                if p_ < 0.12:
+                    # a PtgExp naming a cell that starts no group: nothing to report
+                    t = (br + rng.randrange(0, 40), bc + rng.randrange(0, 12))
+                    if not any(t == it["cells"][0] for it in items if "cells" in it):
+                        items.append({"kind": "orphan", "pos": q, "target": t})
+                        ctx.count("xlsb:file:group:orphan_ptgexp")
+                    continue
+                if p_ < 0.25:
+                    items.append({"kind": "value", "pos": q})
+                    continue
+                lid = "bsp%d_%d_%d_%d" % (k, si, q[0], q[1])
+                ast_lines.append("%s\tptg_ast\txlsb\t%s\t%s" % (lid, "\t".join(ea), g.expr(rng.choice([0, 1, 2]))))
+                items.append({"kind": "plain", "pos": q, "lid": lid})
+            sheets.append(items)
+        books.append((bundle, xtis, ext, list(g.names), sheets, ea))
+    model = ctx.run_model(ast_lines)
+    def good(lid):
+        parts = model.get(lid, "").split("|")
+        ok = len(parts) == 5 and parts[4] == "1" and parts[3] == "-" and len(parts[0]) // 2 <= 4000 and parts[1] == "ok:" + parts[2]
+        return parts if ok else None
+    impl_lines, model_lines, meta, bad = [], [], {}, []
+    for k, (bundle, xtis, ext, names, sheets, ea) in enumerate(books):
+        tables, sheet_cells, wants = [], [], []
+        for si, items in enumerate(sheets):
+            cellrecs = {}       # position -> (kind, rgce, rgcb, records after the cell)
+            exp = []
+            fk = lambda: rng.choice(["fnum", "fnum", "fstr", "fbool", "ferr"])
+            for it in items:
+                if it["kind"] == "plain":
+                    parts = good(it["lid"])
+                    rgce, text = (bytes.fromhex(parts[0]), bytes.fromhex(parts[2]).decode("utf-8")) if parts else (bytes.fromhex("1e0700"), "7")
+                    cellrecs[it["pos"]] = (fk(), rgce, rng.choice([b"", b"", b"\x00\x00"]), [])
+                    exp.append((it["pos"][0], it["pos"][1], text))
+                elif it["kind"] == "value":
+                    cellrecs[it["pos"]] = (rng.choice(["num", "str", "bool", "err", "blank"]), b"", b"", [])
+                elif it["kind"] == "orphan":
+                    rgce, rgcb = fg.xlsb_ptgexp(it["target"])
+                    cellrecs[it["pos"]] = (fk(), rgce, rgcb, [])
+                else:
+                    chosen = None
+                    for (ast, lids, simple) in it["cands"]:
+                        ps = [good(l) for l in lids]
+                        if all(ps):
+                            chosen = (ps, simple, ast)
+                            break
+                    first = it["cells"][0]
+                    if chosen is None:
+                        rgce, texts = b"\x1e\x07\x00", ["7"] * len(it["cells"])
+                    else:
+                        ps, simple, ast = chosen
+                        rgce = bytes.fromhex(ps[0][0])
+                        texts = [bytes.fromhex(p_[2]).decode("utf-8") for p_ in ps]
+                        if any(bytes.fromhex(p_[0]) != rgce for p_ in ps):
+                            ctx.disagreements.append({"function": "encode_xlsb depends on the base cell", "case": ast, "impl": None, "model": None})
+                        if simple is not None:
+                            for q, t in zip(it["cells"], texts):
+                                if simple(q) != t:
+                                    ctx.disagreements.append({"function": "Ptg.translate_b / render (Coq spec) vs the independent Python reading of PtgRefN (xlsb)",
+                                                              "case": "cell %r uses %s" % (q, ast), "impl": simple(q), "model": t})
+                            ctx.count("xlsb:file:group:independent_reading")
+                    r0, r1, c0, c1 = it["box"]
+                    if rng.random() < 0.2:
+                        # the rfx of the record is a bounding box larger than the cells that use the group
+                        r0, c0 = max(0, r0 - rng.randrange(3)), max(0, c0 - rng.randrange(3))
+                        r1, c1 = min(1048575, r1 + rng.randrange(3)), min(16383, c1 + rng.randrange(3))
+                        ctx.count("xlsb:file:group:larger_bounding_box")
+                    tl = rng.choice([None, None, b"", struct.pack("<I", 0) + b"\x00\x00"])
+                    if it["kind"] == "shared":
+                        after = [(0x01AB, fg.brt_shrfmla_payload(r0, r1, c0, c1, rgce, tail=tl))]
+                    else:
+                        after = [(0x01AA, fg.brt_arrfmla_payload(r0, r1, c0, c1, rgce, rng.choice([0, 1]), tail=tl))]
+                    e_rgce, e_rgcb = fg.xlsb_ptgexp(first)
+                    for i, (q, t) in enumerate(zip(it["cells"], texts)):
+                        cellrecs[q] = (fk(), e_rgce, e_rgcb, after if i == 0 else [])
+                        exp.append((q[0], q[1], t))
+                    ctx.count("xlsb:file:group_cells", len(it["cells"]))
+            cl = []
+            for q in sorted(cellrecs):
+                kind, rgce, rgcb, after = cellrecs[q]
+                cl.append((q[0], q[1], kind, rgce, rgcb, list(after)))
+            table = fg.xlsb_table_records(cl, rng)
+            if table and rng.random() < 0.3:
+                # a record the reader ignores somewhere in the table (never right after a PtgExp cell's
+                # own record pair is split: it goes in front of a row header or at the end)
+                rows_at = [i for i, (ty, _) in enumerate(table) if ty == 0] + [len(table)]
+                table.insert(rng.choice(rows_at), (rng.choice([0x0001, 0x0031, 0x0813]), bytes(rng.randrange(256) for _ in range(rng.choice([0, 4, 8, 30])))))
+            tables.append(table)
+            sheet_cells.append(cl)
+            wants.append(fg.expected_range(exp))
+            model_lines.append("bs%d_m%d\tfsheet\txlsb\t%s\t%s" % (k, si, "\t".join(ea), _recs_arg(table + [(0x0092, b"")])))
+        tail = fg.xlsb_tail_records(xtis, [fg.brt_name_payload(0, 0xFFFFFFFF, nm_, b"\x1e\x07\x00") for nm_ in names])
+        path = _write("sb%d.xlsb" % k, fg.xlsb_bytes(bundle, sheet_cells, tail, rng, tables=tables))
+        line = "bs%d\topen\txlsb\t%s\t%s" % (k, path, ";".join("formula " + hx(s_) for s_ in bundle))
+        impl_lines.append(line)
+        meta["bs%d" % k] = (line, wants)
+        # malformed / unusual siblings of the first sheet's table: implementation vs model only
+        if tables and tables[0] and rng.random() < 0.5:
+            mt, ended = _mangle_table(rng, tables[0])
+            if ended:
+                bdata = fg.xlsb_bytes(bundle, sheet_cells, tail, rng, tables=[mt] + tables[1:])
+            else:
+                bdata = _xlsb_unterminated(bundle, sheet_cells, tail, rng, [mt] + tables[1:])
+            bpath = _write("sb%d_bad.xlsb" % k, bdata)
+            bad.append(("bsm%d" % k, "bsm%d\topen\txlsb\t%s\tformula %s" % (k, bpath, hx(bundle[0])),
+                        "bsm%d\tfsheet\txlsb\t%s\t%s" % (k, "\t".join(ea), _recs_arg(mt + ([(0x0092, b""), (0x0082, b"")] if ended else [])))))
+    impl = ctx.run_impl(impl_lines + [b[1] for b in bad])
+    mod2 = ctx.run_model(model_lines + [b[2] for b in bad])
+    for lid, (line, wants) in meta.items():
+        preds = [mod2.get("%s_m%d" % (lid, si), "(missing)") for si in range(len(wants))]
+        parts = (impl.get(lid) or "").split(";;")
+        ctx.traces += 1
+        if len(parts) != len(wants):
+            ctx.violations.append({"case": line, "expected": ";;".join(wants), "actual": impl.get(lid), "model": ";;".join(preds),
+                                   "what": "xlsb file with shared / array formulas through the public API: the workbook could not be read"})
+            continue
+        for si, (got, w, m) in enumerate(zip(parts, wants, preds)):
+            if got != m:
+                ctx.disagreements.append({"function": "xlsb worksheet_formula (real file vs FormulaSheet model)", "case": line, "impl": got, "model": m})
+            if got != w:
+                ctx.violations.append({"case": line, "expected": ";;".join(wants), "actual": impl.get(lid), "model": ";;".join(preds),
+                                       "what": "xlsb file through the public API, sheet #%d: every cell of a shared formula must report the shared "
+                                               "expression translated to its own position, every cell of an array formula the array's expression" % si})
+                break
+            if w != "R[-]":
+                ctx.nontrivial("xlsb:shared:%s" % w)
+    for lid, il, ml in bad:
+        i, m = impl.get(lid) or "", mod2.get(lid, "(missing)")
+        ctx.traces += 1
+        ctx.count("xlsb:file:malformed_table:%s" % ("err" if i.startswith("err") else "panic" if i.startswith("panic") else "ok"))
+        same = (i == m) or (m == "err" and i.startswith("err")) or (m == "panic" and i.startswith("panic"))
+        if not same:
+            ctx.disagreements.append({"function": "xlsb next_formula loop (malformed / unusual cell table)", "case": il + " || " + ml, "impl": i, "model": m})
+    ctx.extra["generated_xlsb_shared_files"] = len(books) + len(bad)
+    return meta, impl
+
+
+def _xlsb_unterminated(bundle, sheet_cells, tail, rng, table):
+    """a workbook whose first sheet part stops after the last record of its cell table: no BrtEndSheetData"""
+    import zipfile, io
+    data = fg.xlsb_bytes(bundle, sheet_cells, tail, rng, tables=table)
+    zin = zipfile.ZipFile(io.BytesIO(data))
+    out = io.BytesIO()
+    with zipfile.ZipFile(out, "w") as z:
+        for nm_ in zin.namelist():
+            body = zin.read(nm_)
+            if nm_ == "xl/worksheets/sheet1.bin":
+                end = fg.brec(0x0092) + fg.brec(0x0082)
+                assert body.endswith(end)
+                body = body[: -len(end)]
+            z.writestr(zipfile.ZipInfo(nm_, date_time=(2020, 1, 1, 0, 0, 0)), body)
+    return out.getvalue()
 
 
 # ---- stored-text formats
@@ -1806,11 +2136,12 @@ def run(ctx):
 def run_e2e(ctx, argc, factor=1):
     import shutil
     for f in os.listdir(E2E_DIR) if os.path.isdir(E2E_DIR) else []:
-        if f.startswith(("e", "s")):
+        if f.startswith(("e", "s")):      # e*.xlsb/xls/xlsx/ods, s*.xls, sb*.xlsb
             os.remove(os.path.join(E2E_DIR, f))
     mb, ib = run_xlsb_files(ctx, factor * ctx.scale(150, 2000), argc)
     ml, il = run_xls_files2(ctx, factor * ctx.scale(120, 1500), argc)
     run_xls_shared_files(ctx, factor * ctx.scale(120, 1500), argc)
+    run_xlsb_shared_files(ctx, factor * ctx.scale(120, 1500), argc)
     mx, ix = run_xlsx_files(ctx, factor * ctx.scale(150, 2000))
     mo, io_ = run_ods_files(ctx, factor * ctx.scale(150, 2000))
     return (mb, ib), (ml, il), (mx, ix), (mo, io_)
